@@ -304,7 +304,7 @@ func newWorld(t *testing.T, c config) *world {
 		for o := 0; o < c.Owners; o++ {
 			must(w.App.BankKeeper.SendCoins(w.Ctx, w.creator, w.addrs[o], sdk.NewCoins(sdk.NewCoin(d, w.base(d, c.Fund[o][p])))))
 		}
-		w.FundAcc(w.trader, sdk.NewCoins(sdk.NewCoin(tok, tokAmt.MulRaw(1000)), sdk.NewCoin(w.bond, osmo.MulRaw(100))))
+		w.FundAcc(w.trader, sdk.NewCoins(sdk.NewCoin(tok, tokAmt.MulRaw(10_000_000)), sdk.NewCoin(w.bond, osmo.MulRaw(100))))
 	}
 	if c.CL {
 		tok := "tokenz"
@@ -710,22 +710,35 @@ func (w *world) exec(c call) outcome {
 		if c.Y == 1 {
 			in, out = out, in
 		}
+		// c.Amt > 1: the same swap repeated c.Amt times in one call (a price crash / recovery by orders of
+		// magnitude: classic pools refuse more than half a reserve per swap); stops at the first refusal
 		return fromApp(w.Try(func(ctx sdk.Context) error {
-			bal := w.App.BankKeeper.GetBalance(ctx, w.trader, in).Amount
-			pool, err := w.App.PoolManagerKeeper.GetPool(ctx, w.poolID[c.D])
-			if err != nil {
-				return err
+			for i := int64(0); i == 0 || i < c.Amt; i++ {
+				bal := w.App.BankKeeper.GetBalance(ctx, w.trader, in).Amount
+				pool, err := w.App.PoolManagerKeeper.GetPool(ctx, w.poolID[c.D])
+				if err != nil {
+					return err
+				}
+				pb := w.App.BankKeeper.GetBalance(ctx, pool.GetAddress(), in).Amount
+				amt := pb.MulRaw(c.X).QuoRaw(1000) // X per mille of what the pool holds of the token going in
+				if amt.GT(bal) {
+					amt = bal
+				}
+				if !amt.IsPositive() {
+					if i > 0 {
+						return nil
+					}
+					return fmt.Errorf("nothing to swap")
+				}
+				_, _, err = w.App.PoolManagerKeeper.SwapExactAmountIn(ctx, w.trader, w.poolID[c.D], sdk.NewCoin(in, amt), out, osmomath.ZeroInt())
+				if err != nil {
+					if i > 0 {
+						return nil
+					}
+					return err
+				}
 			}
-			pb := w.App.BankKeeper.GetBalance(ctx, pool.GetAddress(), in).Amount
-			amt := pb.MulRaw(c.X).QuoRaw(1000) // X per mille of what the pool holds of the token going in
-			if amt.GT(bal) {
-				amt = bal
-			}
-			if !amt.IsPositive() {
-				return fmt.Errorf("nothing to swap")
-			}
-			_, _, err = w.App.PoolManagerKeeper.SwapExactAmountIn(ctx, w.trader, w.poolID[c.D], sdk.NewCoin(in, amt), out, osmomath.ZeroInt())
-			return err
+			return nil
 		}))
 	case "fund":
 		// fees arriving in the fee collector: paid out to validators and their delegators (the intermediary
@@ -743,11 +756,12 @@ func (w *world) exec(c call) outcome {
 // random histories
 
 type recorder struct {
-	w   *world
-	rng *rand.Rand
-	tw  *tracelog.Writer
-	st  stateDoc
-	sf  sfDoc
+	w      *world
+	rng    *rand.Rand
+	tw     *tracelog.Writer
+	st     stateDoc
+	sf     sfDoc
+	script []call // scripted calls still to be issued (crashScript)
 }
 
 func (r *recorder) observe(head map[string]any) {
@@ -856,8 +870,33 @@ func (r *recorder) nextBoundary() int64 {
 	return secs(e.CurrentEpochStartTime) + r.w.epochDur
 }
 
+// crashScript: the price of one superfluid denom falls by orders of magnitude, an epoch refresh sees it
+// (small delegations round to zero and are undelegated in full), the price recovers, and the next refresh must
+// stake the still-delegated locks again.  Regular random calls are interleaved between the scripted ones.
+func (r *recorder) crashScript() []call {
+	d := r.w.denoms[r.rng.Intn(len(r.w.denoms))]
+	n := []int64{6, 12, 25, 40}[r.rng.Intn(4)]
+	x := int64(450)
+	if r.w.isCL[d] {
+		x = 150
+	}
+	return []call{{A: "swap", D: d, Y: 0, X: x, Amt: n}, {A: "block", X: -1}, {A: "swap", D: d, Y: 1, X: x, Amt: n}, {A: "block", X: -1},
+		{A: "block", X: -1}}
+}
+
 func (r *recorder) nextCall() call {
 	rng := r.rng
+	if len(r.script) > 0 && rng.Intn(3) > 0 {
+		c := r.script[0]
+		r.script = r.script[1:]
+		if c.A == "block" && c.X < 0 { // onto the next epoch boundary
+			c.X = r.nextBoundary() - r.st.Now + int64(rng.Intn(3))
+			if c.X < 1 {
+				c.X = 1
+			}
+		}
+		return c
+	}
 	free := func(l lockSt) bool { return r.marker(l.ID) == "" && l.End == 0 }
 	deleg := func(l lockSt) bool { return r.connected(l.ID) }
 	undel := func(l lockSt) bool { return r.marker(l.ID) == "U" }
@@ -1083,7 +1122,16 @@ func TestRecord(t *testing.T) {
 		r.observe(map[string]any{"e": "cfg", "a": "init", "owners": w.names, "vals": w.vals, "denoms": w.denoms, "cl": cls,
 			"unbond": w.unbond, "epochdur": w.epochDur, "risk": apphelp.BigD(w.risk), "unit": units, "seed": seed, "h": h, "config": cfg})
 		epochs := 0
+		zeroed := map[string]bool{}
+		crashAt := -1
+		if h%2 == 1 {
+			crashAt = nops/6 + rng.Intn(nops/2+1)
+		}
 		for i := 0; i < nops; i++ {
+			if i == crashAt {
+				r.script = r.crashScript()
+				counts["history:crash-script"]++
+			}
 			c := r.nextCall()
 			nconnBefore := len(r.sf.Conn)
 			o := w.exec(c)
@@ -1128,6 +1176,18 @@ func TestRecord(t *testing.T) {
 			for _, ia := range r.sf.IAs {
 				if ia.Frac != 0 {
 					counts["info:fractional-delegation"]++
+				}
+				// an epoch refresh that left an account carrying locks without any stake (their value rounded to
+				// zero), and a later refresh that staked such an account again
+				k := ia.D + "|" + ia.V
+				if key == "epoch" && ia.N > 0 && ia.Deleg.S == 0 {
+					counts["refresh:locks-worth-zero"]++
+					zeroed[k] = true
+				} else if key == "epoch" && ia.N > 0 && ia.Deleg.S > 0 && zeroed[k] {
+					counts["refresh:restaked-from-zero"]++
+					delete(zeroed, k)
+				} else if ia.N == 0 {
+					delete(zeroed, k)
 				}
 			}
 			if r.sf.InvBad != 0 {
